@@ -409,7 +409,7 @@ def awrap_tree(C, shape, b=0, l=1, d=3, cls='const', how='mul', var=0):
 def gen_awrap(rng, g, C):
     shape = rng.choice(AWRAP_SHAPES)
     t = awrap_tree(C, shape, b=rng.choice([0, F(1, 2), 1]), l=rng.choice([1, F(1, 2), F(3, 2)]), d=rng.choice([2, 3, 4]),
-                   cls=rng.choice(['const', 'table', 'point']), how=rng.choice(['mul', 'par']), var=rng.randrange(8))
+                   cls=rng.choice(['const', 'table', 'point']), how=rng.choice(['mul', 'rmul', 'par']), var=rng.randrange(8))
     for _ in range(rng.choice([0, 0, 1])):
         t = wrap_tree(C, t, rng.choice(WRAPS), rng.choice([2, 3]))
     names = sorted(x for x in C.meas_names(t) if x is not None)
@@ -419,7 +419,7 @@ def gen_awrap(rng, g, C):
 
 def enum_awrap(C):
     out = []
-    for shape, var, how in itertools.product(AWRAP_SHAPES, range(8), ['mul', 'par']):
+    for shape, var, how in itertools.product(AWRAP_SHAPES, range(8), ['mul', 'rmul', 'par']):
         out.append({'kind': 'prog', 'pt': awrap_tree(C, shape, b=F(1, 2), l=1, d=3, how=how, var=var), 'env': _unit_env(C),
                     'mm': None, 'family': 'awrap:enum'})
     return out
